@@ -248,6 +248,10 @@ func (r *Run) Violation(signature string, witness interface{}) {
 	v.Replay = path
 	fmt.Fprintf(Out, "VIOLATION property=%s replay=%s\n", r.ID, path)
 	fmt.Fprintf(Out, "  signature: %s\n", signature)
+	// a child process hands its state to the parent right away: it may not survive the case
+	if p := os.Getenv("VERIF_CHILD_EXPORT"); p != "" {
+		r.Export(p)
+	}
 }
 
 // Finish writes the evidence file and returns the process exit code.
